@@ -375,15 +375,20 @@ Proof.
   - intros l Hl. rewrite Hk in Hl. destruct ty; simpl in *; unfold mT; apply YM; lia.
 Qed.
 
-(* ... but the code of AMatrix::prodMatInPlace / prodMatMatInPlace(this, ...) on dense classes assigns through noalias() *)
-Lemma prodMatInPlace_dense_refuted : exists d y ty c, wfd d /\ wfd y /\ nc d = dimr ty y /\ dimc ty y = nc d /\ D_prodMatInPlace d y ty = UB c.
-Proof. exists (tab 2 2 mid), (tab 2 2 mid), false, ub_alias. vm_compute. auto 10. Qed.
-(* and the generic loop nest reads entries of the receiver it has already overwritten *)
-Lemma prodMatInPlace_generic_refuted : exists d y r,
-  wfd d /\ wfd y /\ nr y = nc d /\ nc y = nc d /\ G_prodMatMat_alias false d d y false false true false = Ok r /\
-  ~ meq (nr d) (nc d) (absd r) (mmul (nc d) (absd d) (absd y)).
+(* AMatrix::prodMatInPlace (the receiver is the first operand): this := this . op(y), dense override and generic fallback *)
+Lemma prodMatInPlace_dense d y ty : nc d = dimr ty y -> dimc ty y = nc d ->
+  exists r, D_prodMatInPlace d y ty = Ok r /\ nr r = nr d /\ nc r = nc d /\ wfd r /\
+    meq (nr d) (nc d) (absd r) (mmul (nc d) (absd d) (opT ty (absd y))).
 Proof.
-  exists (mkD 2 2 [1; 0; 1; 1]), (mkD 2 2 [0; 1; 1; 0]). eexists.
-  repeat (split; [vm_compute; reflexivity|]).
-  intro H. specialize (H 1%nat 1%nat (Nat.lt_succ_diag_r 1) (Nat.lt_succ_diag_r 1)). vm_compute in H. discriminate H.
+  intros H1 H2. unfold D_prodMatInPlace, D_prodMatMat_alias.
+  destruct (prodMatMat_dense d d y false ty) as [r [E [R1 [R2 [W M]]]]]; [exact H1|reflexivity|congruence|].
+  exists r. auto.
+Qed.
+Lemma prodMatInPlace_generic d y ty : wfd d -> nc d = dimr ty y -> dimc ty y = nc d ->
+  exists r, G_prodMatMat_alias false d d y false ty true false = Ok r /\ nr r = nr d /\ nc r = nc d /\
+    meq (nr d) (nc d) (absd r) (mmul (nc d) (absd d) (opT ty (absd y))).
+Proof.
+  intros W H1 H2. unfold G_prodMatMat_alias.
+  destruct (prodMatMat_generic d d y false ty W) as [r [E [R1 [R2 M]]]]; [exact H1|reflexivity|congruence|].
+  exists r. auto.
 Qed.
